@@ -93,6 +93,10 @@ def _connect_one(ctx: Ctx, c: Collector) -> None:
                 # `if k not in d: d[k] = v` is setdefault: the test is not a condition of the entry
                 if e.term[1][0] == "idx":
                     idem[e.idx] = tuple(g for g in e.guards if T.guard_term(g) == ("cmp", "notin", e.term[1][2], e.term[1][1]))
+                    if tb == "input_delays":
+                        # a test against the entry that is already there (keep the smaller delay) is how the entry is combined, not whether
+                        # the connection is entered: R5 judges it
+                        idem[e.idx] += tuple(g for g in e.guards if any(x[0] == "attr" and x[2] == "input_delays" for x in T.subterms((T.guard_term(g),))))
         elif e.kind == "call" and e.term[1][0] == "attr" and e.term[1][2] in ("append", "add", "add_edge", "update"):
             recv = unalias(e.term[1][1], s, fi)
             tb = _effect_table(recv)
